@@ -50,7 +50,8 @@ const (
 	spSpan // also used for AST nodes (a node is its span)
 	spFilename
 	spZeroSpan
-	spTok // a lexer token read from the parser (span = start..end of that token)
+	spTok      // a lexer token read from the parser (span = start..end of that token)
+	spTokPiece // another field of such a token (Value, Kind): which token a message talks about
 )
 
 const (
@@ -153,6 +154,9 @@ type spRoles struct {
 	// location it passes and the call (collected while the summaries are computed)
 	lead   map[*types.Func]map[int]int
 	frozen bool
+	// errSink: functions that build a syntax error from a span operand (errors.New…Error,
+	// and parser methods that forward a span parameter to one): index of that operand
+	errSink map[*types.Func]int
 }
 
 type spPure struct {
@@ -297,6 +301,44 @@ func spResolveRoles(c *Ctx) *spRoles {
 		fatalf("anchor unresolved: the parser method that calls Lexer.NextToken and shifts current→previous")
 	}
 	r.resolvePure()
+	r.errSink = map[*types.Func]int{}
+	esc := ep.Types.Scope()
+	for _, name := range esc.Names() {
+		fn, ok := esc.Lookup(name).(*types.Func)
+		if !ok {
+			continue
+		}
+		sig := fn.Type().(*types.Signature)
+		if sig.Results().Len() != 1 || !r.isErrPtr(sig.Results().At(0).Type()) {
+			continue
+		}
+		for i := 0; i < sig.Params().Len(); i++ {
+			if types.Identical(sig.Params().At(i).Type(), r.spanT) {
+				r.errSink[fn] = i
+			}
+		}
+	}
+	for fn, fd := range r.decls {
+		sig := fn.Type().(*types.Signature)
+		for i := 0; i < sig.Params().Len(); i++ {
+			if !types.Identical(sig.Params().At(i).Type(), r.spanT) {
+				continue
+			}
+			po := sig.Params().At(i)
+			ast.Inspect(fd.Body, func(n ast.Node) bool {
+				if call, ok := n.(*ast.CallExpr); ok {
+					if cf := CalleeOf(r.info, call); cf != nil && cf.Pkg() == ep.Types {
+						if j, ok := r.errSink[cf]; ok && j < len(call.Args) {
+							if id, ok := ast.Unparen(call.Args[j]).(*ast.Ident); ok && r.info.Uses[id] == po {
+								r.errSink[fn] = i
+							}
+						}
+					}
+				}
+				return true
+			})
+		}
+	}
 	return r
 }
 
@@ -472,6 +514,7 @@ type spFuncRun struct {
 	siteKey map[ast.Node]string
 	order   map[string]*spOrderFact // "Type|f<g"
 	argObs  map[string]*spSite
+	errKeys map[ast.Node]string
 	// summary results
 	lo, hi  int
 	success int
@@ -747,7 +790,7 @@ func (run *spFuncRun) eval(st *spState, e ast.Expr, ctx string) *spVal {
 			if f == r.tokSpanF {
 				return spTokSpan(base.lb, base.cur, base.desc+"."+f.Name())
 			}
-			return &spVal{k: spUnknown, desc: exprStr(x)}
+			return &spVal{k: spTokPiece, lb: base.lb, ub: base.ub, cur: base.cur, desc: exprStr(x)}
 		}
 		if base.k == spSpan {
 			switch {
@@ -837,6 +880,9 @@ func (run *spFuncRun) eval(st *spState, e ast.Expr, ctx string) *spVal {
 				return &spVal{k: spUnknown, desc: exprStr(x)}
 			}
 		}
+		if idx, ok := r.errSink[fn]; ok && fn != nil && idx < len(x.Args) {
+			run.errorAbout(st, x, idx)
+		}
 		// constructor of an AST value taking one span: the node is that span
 		var spanArg *spVal
 		nspan := 0
@@ -857,6 +903,82 @@ func (run *spFuncRun) eval(st *spState, e ast.Expr, ctx string) *spVal {
 		return &spVal{k: spUnknown, desc: exprStr(x.Fun) + "(…)"}
 	}
 	return &spVal{k: spUnknown, desc: exprStr(e)}
+}
+
+// errorAbout: a syntax error whose message is formatted from a token (its Value
+// or Kind) is an error ABOUT that token: the span it is placed at, when it is
+// the span of a token, must be the span of the same token — not of its
+// neighbour (the previous token before anything was consumed is the last token
+// of the construct in front).
+func (run *spFuncRun) errorAbout(st *spState, call *ast.CallExpr, idx int) {
+	if run.argObs == nil {
+		return
+	}
+	sv := run.eval(st, call.Args[idx], "")
+	if sv.k != spSpan || sv.start == nil || sv.end == nil || sv.start.lb == nil || sv.start.lb != sv.start.ub || sv.end.lb != sv.start.lb {
+		return // not the span of one token
+	}
+	a := sv.start.lb
+	var pieces []*spVal
+	for i, arg := range call.Args {
+		if i == idx {
+			continue
+		}
+		ast.Inspect(arg, func(n ast.Node) bool {
+			switch x := n.(type) {
+			case *ast.FuncLit:
+				return false
+			case *ast.SelectorExpr:
+				if v := run.eval(st, x, ""); v.k == spTokPiece && v.lb != nil {
+					pieces = append(pieces, v)
+					return false
+				}
+			case *ast.Ident:
+				if obj := run.r.info.Uses[x]; obj != nil {
+					if v := st.env[obj]; v != nil && v.k == spTokPiece && v.lb != nil {
+						pieces = append(pieces, v)
+					}
+				}
+			}
+			return true
+		})
+	}
+	if len(pieces) == 0 {
+		return
+	}
+	if run.errKeys == nil {
+		run.errKeys = map[ast.Node]string{}
+	}
+	key, ok := run.errKeys[call]
+	if !ok {
+		key = fmt.Sprintf("%s|error about a token|placed at that token", spFuncKey(run.fd))
+		if n := len(run.errKeys); n > 0 {
+			key = fmt.Sprintf("%s#%d", key, n+1)
+		}
+		run.errKeys[call] = key
+	}
+	s := run.argObs[key]
+	if s == nil {
+		s = &spSite{key: key, pos: call.Pos(), checks: map[string]Status{}, detail: map[string]string{}}
+		run.argObs[key] = s
+	}
+	for _, pc := range pieces {
+		b := pc.lb
+		same, decided := false, false
+		switch {
+		case a.D == b.D && a.U == b.U:
+			same, decided = a.off == b.off, true
+		case a.D == a.U && b.D == b.U:
+			same, decided = a.D+a.off == b.D+b.off, true
+		}
+		switch {
+		case !decided:
+		case same:
+			s.set("arg", Discharged, fmt.Sprintf("message formatted from %s, placed at %s: the same token", pc.desc, sv.desc))
+		default:
+			s.set("arg", Violated, fmt.Sprintf("the message is formatted from %s (%s) but the error is placed at %s (%s): the span of a different token — on path {%s} the offending token is not the one the error points at", pc.desc, spCapStr(b), sv.desc, spCapStr(a), strings.Join(st.trail, "; ")))
+		}
+	}
 }
 
 func spTypeName(t types.Type) string {
@@ -1107,6 +1229,9 @@ func (run *spFuncRun) recordOrder(typ string, fields map[string]*spVal) {
 // its first result.
 func (run *spFuncRun) applyCall(st *spState, call *ast.CallExpr, fn *types.Func) *spVal {
 	r := run.r
+	if idx, ok := r.errSink[fn]; ok && idx < len(call.Args) {
+		run.errorAbout(st, call, idx)
+	}
 	// location arguments must be starts captured earlier
 	sig := fn.Type().(*types.Signature)
 	for i, a := range call.Args {
@@ -1621,6 +1746,9 @@ func spanShapeAnalyse(c *Ctx) *spanShapeResult {
 		sort.Strings(akeys)
 		for _, k := range akeys {
 			s := run.argObs[k]
+			if _, decided := s.checks["arg"]; !decided {
+				continue
+			}
 			res.obs = append(res.obs, Obligation{Key: k, Pos: c.Pos(s.pos), Status: s.checks["arg"], Detail: s.detail["arg"]})
 		}
 	}
